@@ -166,7 +166,7 @@ Definition clean_op (U : list obj) (o : op) : Prop :=
   match o with
   | OLock _ | OUnlock _ | OInplace _ _ | OSet _ _ | OSetNode _ _ _ | ODel _ => True
   | ORead _ m a k => read_ok U m a k
-  | OPromote _ _ | OMakeMemmap _ _ | OMemmap _ _ | OSetNames _ _ | OSetBatchSize _ _ => False
+  | OPromote _ _ | OMakeMemmap _ _ | OMakeMemmapNested _ _ _ _ | OMemmap _ _ | OSetNames _ _ | OSetBatchSize _ _ => False
   end.
 
 Lemma owner_unlocked : forall U s p, Good U s -> owner_locked s p = Some false ->
@@ -273,15 +273,19 @@ Proof. intros. unfold punlock_f. destruct (is_prefix p (n_path n)); reflexivity.
 Lemma cparents_f_cache : forall p n, n_cache (cparents_f p n) = n_cache n.
 Proof. intros. unfold cparents_f. destruct (is_prefix p (n_path n) && nkind_eqb (n_kind n) NTD); reflexivity. Qed.
 
-Theorem unlock_erases : forall s p n,
-  In n (nodes (fst (unlock_ s p))) -> is_prefix p (n_path n) = true -> snd (unlock_ s p) <> NoSuchTarget -> n_cache n = [].
+Lemma punlock_kf_cache : forall k p n, n_cache (punlock_kf k p n) = if is_prefix p (n_path n) then [] else n_cache n.
+Proof. intros. unfold punlock_kf. destruct (is_prefix p (n_path n)); reflexivity. Qed.
+
+Theorem unlock_erases : forall fx s p n,
+  In n (nodes (fst (unlock_ fx s p))) -> is_prefix p (n_path n) = true -> snd (unlock_ fx s p) <> NoSuchTarget -> n_cache n = [].
 Proof.
-  intros s p n Hn P NT. unfold unlock_ in *. destruct (find_node s p) as [n0|]; [|cbn in NT; contradiction].
+  intros fx s p n Hn P NT. unfold unlock_ in *. destruct (find_node s p) as [n0|]; [|cbn in NT; contradiction].
   destruct (unlock_blocked (propagate_unlock s p) p); cbn [fst] in Hn.
   - rewrite propagate_lock_eq in Hn. apply in_upd in Hn. destruct Hn as [x [Hx ->]].
-    change (propagate_unlock s p) with (upd_nodes s (punlock_f p)) in Hx. apply in_upd in Hx. destruct Hx as [y [Hy ->]].
-    rewrite plock_f_cache, punlock_f_cache.
-    rewrite (proj1 (plock_f_keeps _ p _)), (proj1 (punlock_f_keeps p y)) in P. now rewrite P.
+    change (propagate_unlock_k (fix_unlockflags fx) s p) with (upd_nodes s (punlock_kf (fix_unlockflags fx) p)) in Hx.
+    apply in_upd in Hx. destruct Hx as [y [Hy ->]].
+    rewrite plock_f_cache, punlock_kf_cache.
+    rewrite (proj1 (plock_f_keeps _ p _)), (proj1 (punlock_kf_keeps _ p y)) in P. now rewrite P.
   - change (clear_parents (propagate_unlock s p) p) with (upd_nodes (upd_nodes s (punlock_f p)) (cparents_f p)) in Hn.
     apply in_upd in Hn. destruct Hn as [x [Hx ->]]. apply in_upd in Hx. destruct Hx as [y [Hy ->]].
     rewrite cparents_f_cache, punlock_f_cache.
